@@ -141,6 +141,19 @@ static H3Index *cell_set(int *n_out, int *wellformed) {
         ref_child_iter it;
         int d = 1 + (int)vf_below(R, res < 3 ? (uint64_t)res : 3);
         for (ref_child_iter_init(&it, ref_parent(c, res - d), res); !it.done && n < 400; ref_child_iter_next(&it)) tmp[n++] = it.h;
+        /* plus some complete sibling groups from elsewhere: several parents survive into the second compaction round next to
+         * the complete family (the later rounds run in a table sized for the first) */
+        if (vf_below(R, 2))
+            for (int g = 1 + (int)vf_below(R, 12); g > 0 && n + 7 <= 500; g--) {
+                H3Index q = vf_rand_cell(R, res - 1);
+                if (vf_below(R, 3) == 0) { /* near the family */
+                    H3Index dd[19] = {0};
+                    int pick = 7 + (int)vf_below(R, 12);
+                    if (!gridDisk(ref_parent(c, res - 1), 2, dd) && dd[pick]) q = dd[pick];
+                }
+                if (ref_parent(q, res - d) == ref_parent(c, res - d)) continue;
+                for (ref_child_iter_init(&it, q, res); !it.done && n < 510; ref_child_iter_next(&it)) tmp[n++] = it.h;
+            }
     } else {
         n = (int)vf_below(R, 12);
         for (int i = 0; i < n; i++) tmp[i] = vf_rand_cell(R, res);
